@@ -102,7 +102,9 @@ type spec struct {
 	memFrom int // -1 own, j import from instance j
 	tabFrom int
 	gFrom   [nGlobals]int
-	impFn   []int
+	impFn   []int    // module each function import comes from
+	impName []string // export name there: "id" (its own function) or "re<k>" (a function it re-exports)
+	impDef  []int    // the instance that ultimately defines the function
 	// twist makes one import incompatible / missing
 	twist string
 	// segments
@@ -115,7 +117,7 @@ type spec struct {
 }
 
 func (s *spec) describe() string {
-	return fmt.Sprintf("m%d{mem<-%d tab<-%d globals<-%v funcs<-%v twist=%q data=%v oob=%v elem=%v ownInit=%v start=%d const=%d}", s.idx, s.memFrom, s.tabFrom, s.gFrom, s.impFn, s.twist, s.dataSeg, s.oobSeg, s.elemSeg, s.ownInit, s.start, s.constVal)
+	return fmt.Sprintf("m%d{mem<-%d tab<-%d globals<-%v funcs<-%v%v twist=%q data=%v oob=%v elem=%v ownInit=%v start=%d const=%d}", s.idx, s.memFrom, s.tabFrom, s.gFrom, s.impFn, s.impName, s.twist, s.dataSeg, s.oobSeg, s.elemSeg, s.ownInit, s.start, s.constVal)
 }
 
 // gcUsable: the immutable i32 global is imported with its proper type, so
@@ -161,7 +163,7 @@ func build(s *spec, specs []*spec) []byte {
 		if s.twist == fmt.Sprintf("func-sig-%d", k) {
 			p = []wasmb.ValType{wasmb.I64}
 		}
-		name := "id"
+		name := s.impName[k]
 		if s.twist == fmt.Sprintf("func-missing-%d", k) {
 			name = "nosuch"
 		}
@@ -304,6 +306,8 @@ func build(s *spec, specs []*spec) []byte {
 	m.AddFunc([]wasmb.ValType{wasmb.I32, wasmb.I32}, i32, nil, c().LocalGet(1).LocalGet(0).CallIndirect(tI, 0).B, "tab_call")
 	m.AddFunc(i32, i32, nil, c().LocalGet(0).TableGet(0).RefIsNull().B, "tab_isnull")
 	for k := range s.impFn {
+		// re-export the imported function: a later module may import it from here
+		m.Exports = append(m.Exports, wasmb.Export{Name: fmt.Sprintf("re%d", k), Kind: wasmb.KindFunc, Idx: uint32(k)})
 		if s.twist == fmt.Sprintf("func-sig-%d", k) {
 			m.AddFunc(i32, i32, nil, c().LocalGet(0).I64ExtendI32U().Call(uint32(k)).B, fmt.Sprintf("imp%d", k))
 			continue
@@ -457,7 +461,15 @@ func (r *runner) instantiate(twisted bool) {
 			}
 		}
 		for n := t.Choose(3); n > 0; n-- {
-			s.impFn = append(s.impFn, pick())
+			j := pick()
+			name, def := "id", j
+			if pj := r.specs[j]; len(pj.impFn) > 0 && pj.twist == "" && t.Chance(1, 2) {
+				k2 := t.Choose(len(pj.impFn))
+				name, def = fmt.Sprintf("re%d", k2), pj.impDef[k2]
+			}
+			s.impFn = append(s.impFn, j)
+			s.impName = append(s.impName, name)
+			s.impDef = append(s.impDef, def)
 		}
 	}
 	s.dataSeg = t.Chance(1, 2)
@@ -491,7 +503,7 @@ func (r *runner) instantiate(twisted bool) {
 	r.shape = append(r.shape, "inst:"+s.twist)
 	bin := build(s, r.specs)
 	// model: resolve objects
-	in := &inst{idx: idx, name: s.name, imps: s.impFn}
+	in := &inst{idx: idx, name: s.name, imps: s.impDef}
 	get := func(j int) *inst { return r.insts[j] }
 	wantOK, why := r.compatible(s)
 	if s.memFrom >= 0 {
@@ -783,6 +795,11 @@ func (r *runner) step() {
 						used = true
 					}
 				}
+				for _, f := range sp.impDef {
+					if f == c.idx {
+						used = true
+					}
+				}
 			}
 			if !used {
 				leaves = append(leaves, c)
@@ -808,7 +825,7 @@ func (r *runner) step() {
 			return
 		}
 		k := t.Choose(len(in.imps))
-		other := r.insts[in.imps[k]]
+		other := r.insts[r.specs[in.idx].impFn[k]]
 		res, err := r.call(in, fmt.Sprintf("xg%d", k))
 		r.log("m%d.xg%d() [table.grow inside m%d]", in.idx, k, other.idx)
 		if err != nil {
